@@ -210,4 +210,7 @@ def run(ctx):
     # (same rule instance as C01/pos-append)
     from rules import c01 as _c01pa
     _c01pa.rule_pos_append(ctx, R="C10/stack-descriptor-then-bytes")
+    # what a directory entry names was appended before: the builder's layout laws (rules/families.py)
+    from rules import families as _fam2
+    _fam2.image_builder(ctx, "C10")
 
